@@ -11,25 +11,25 @@ GENERIC_NOTE = ("Trusted: Lean 4.33 kernel + propext/Classical.choice/Quot.sound
 # property -> (technique, what the theorems say, extra trusted/partial note)
 CHECKS = {
     "C01": ("Lean 4 proof (simulation invariant over all key histories) + differential correspondence",
-            "C01_quiescent / C01_disconnect / C01_sounding_explained: for every accepted configuration and every disciplined key history, nothing sounds when no key is down and nothing sounds after the disconnect clean-up (induction with counter = holders, tracker ⊆ keys down, sounding ⊆ tracked); per-event axis theorems from C08; C01_mixed_explained / C01_mixed_quiescent / C01_mixed_disconnect: the same three statements by one induction over histories mixing key, axis, SYN and MIDI-input events (invariant Mixed.MInv: sounding ⊆ key tracker ∪ axis tracker, counter = holders, one axis-tracker entry per deflected axis).",
+            "C01_quiescent / C01_disconnect / C01_sounding_explained: for every accepted configuration and every disciplined key history, nothing sounds when no key is down and nothing sounds after the disconnect clean-up (induction with counter = holders, tracker ⊆ keys down, sounding ⊆ tracked); per-event axis theorems from C08; C01_mixed_explained / C01_mixed_quiescent / C01_mixed_disconnect: the same three statements by one induction over histories mixing key, axis, SYN and MIDI-input events (invariant Mixed.MInv: sounding ⊆ key tracker ∪ axis tracker, counter = holders, one axis-tracker entry per deflected axis). Regenerated tie (session 5): tools/extract/golite.go translates the Go bodies of the key path (the 12 up/down/reset methods, CCLearningOn/Off, Panic, checkDoubleActions, NoteOn, NoteOff, AnalogNoteOn/Off, checkExitSequence, the dispatch tables, handleKEYEvent) into Hidi/Gen/Bodies.lean on every run; Props/GenTie.lean proves each generated function equal to the model function for every state, configuration and event (GenTie_handleKEYEvent, GenTie_reachable) and restates C02/C04/C13/C14 theorems about the generated handler. Also the disconnect clean-up of ProcessEvents (Props/C01gentie.lean: C01_gen_cleanup, C01_gen_disconnect) and the axis path (GenTieAbs).",
             "Partial: histories mixing key and axis events are covered per event (C08) and by the differential run, not by one induction."),
     "C02": ("Lean 4 proof (per-step theorems over every invariant state) + differential correspondence",
-            "C02_release_pinned, C02_press_records, C02_frame_action_*, C02_actions_silent: the release emits only the Note Off recorded at the press; action keys never touch the tracker and emit nothing. The same theorems in every non-crashed state of histories of all event kinds (C02_all_*, Props/C02mixed.lean): KInvReach.reachable_kinv + AnaIndep.handleKey_split (the key handler neither reads nor writes the analog tracker).", ""),
+            "C02_release_pinned, C02_press_records, C02_frame_action_*, C02_actions_silent: the release emits only the Note Off recorded at the press; action keys never touch the tracker and emit nothing. The same theorems in every non-crashed state of histories of all event kinds (C02_all_*, Props/C02mixed.lean): KInvReach.reachable_kinv + AnaIndep.handleKey_split (the key handler neither reads nor writes the analog tracker). Regenerated tie (session 5): tools/extract/golite.go translates the Go bodies of the key path (the 12 up/down/reset methods, CCLearningOn/Off, Panic, checkDoubleActions, NoteOn, NoteOff, AnalogNoteOn/Off, checkExitSequence, the dispatch tables, handleKEYEvent) into Hidi/Gen/Bodies.lean on every run; Props/GenTie.lean proves each generated function equal to the model function for every state, configuration and event (GenTie_handleKEYEvent, GenTie_reachable) and restates C02/C04/C13/C14 theorems about the generated handler.", ""),
     "C03": ("Lean 4 proof (refinement counter = holders) + differential correspondence",
-            "C03_counter_is_holders (every reachable state), C03_press / C03_release / C03_last_release_only: exact output per collision mode in terms of holders; C03_all_press / release / last_release_only and C03_all_history for histories mixing keys, axes, SYN and MIDI input (Props/C03mixed.lean).", ""),
+            "C03_counter_is_holders (every reachable state), C03_press / C03_release / C03_last_release_only: exact output per collision mode in terms of holders; C03_all_press / release / last_release_only and C03_all_history for histories mixing keys, axes, SYN and MIDI input (Props/C03mixed.lean). Regenerated tie (session 5): tools/extract/golite.go translates the Go bodies of the key path (the 12 up/down/reset methods, CCLearningOn/Off, Panic, checkDoubleActions, NoteOn, NoteOff, AnalogNoteOn/Off, checkExitSequence, the dispatch tables, handleKEYEvent) into Hidi/Gen/Bodies.lean on every run; Props/GenTie.lean proves each generated function equal to the model function for every state, configuration and event (GenTie_handleKEYEvent, GenTie_reachable) and restates C02/C04/C13/C14 theorems about the generated handler.", ""),
     "C04": ("Lean 4 proof + differential correspondence",
-            "C04_press / C04_resolve (note, channel, velocity formula in unbounded integers, silent out of range), C04_pair_reset, C04_bounds, C04_unit_step, C04_init, C04_monitor (no monitor failure on any key-only history), C04_source_facts (octave/semitone are int fields); C04_all_press(_fresh), C04_all_unit_step, C04_all_bounds on histories of all event kinds (Props/C04mixed.lean).",
+            "C04_press / C04_resolve (note, channel, velocity formula in unbounded integers, silent out of range), C04_pair_reset, C04_bounds, C04_unit_step, C04_init, C04_monitor (no monitor failure on any key-only history), C04_source_facts (octave/semitone are int fields); C04_all_press(_fresh), C04_all_unit_step, C04_all_bounds on histories of all event kinds (Props/C04mixed.lean). Regenerated tie (session 5): tools/extract/golite.go translates the Go bodies of the key path (the 12 up/down/reset methods, CCLearningOn/Off, Panic, checkDoubleActions, NoteOn, NoteOff, AnalogNoteOn/Off, checkExitSequence, the dispatch tables, handleKEYEvent) into Hidi/Gen/Bodies.lean on every run; Props/GenTie.lean proves each generated function equal to the model function for every state, configuration and event (GenTie_handleKEYEvent, GenTie_reachable) and restates C02/C04/C13/C14 theorems about the generated handler.",
             "Go int modelled as unbounded integers."),
     "C05": ("Lean 4 proof (invariant over all events incl. axes) + differential correspondence",
-            "C05_run: every message of every run of an accepted configuration with in-range axis events is a well-formed 3-byte channel message; C05_cleanup for the disconnect.",
+            "C05_run: every message of every run of an accepted configuration with in-range axis events is a well-formed 3-byte channel message; C05_cleanup for the disconnect. Regenerated tie (session 5): handleABSEvent (a chain of 11 segment definitions) and processEvent are translated from events.go into Hidi/Gen/Bodies.lean on every run; Props/GenTieAbs.lean proves them equal to the model's handleAbs / step for every state, configuration, axis and raw value (GenTieAbs_handleABSEvent, GenTieAbs_processEvent_*), with the same Float.lean binary64 operations on both sides, and restates C05 on the generated processEvent (GenTieAbs_C05_wellformed).",
             "Deadzones that are NaN/Inf/≥1 are outside the theorem (in-range hypothesis)."),
     "C06": ("Lean 4 proof over an exact binary64 model (Rat + rnd53) + bit-exact differential correspondence",
-            "C06_shape_range/mono, end stops, rest value, CC/pitch-bend range, monotonicity and exact ends, on the softfloat model for every raw value and deadzone in [0,1); accuracy (Props/C06acc.lean): C06_shape_accuracy (the binary64 shaped value is within 2^-17 of the exact rational transfer function Spec.idealShape, for every axis range within 32 bits and every deadzone in [0,1): error propagation through every rounding, with a separate argument for deadzones within 2^-32 of 1), C06_cc_accuracy / C06_pb_accuracy (every transmitted controller / pitch-bend value is within one step of Spec.idealValue, all signed/unsigned x uni/bidirectional x flip cases; absCC_sends ties the value to Dev.absCC).",
+            "C06_shape_range/mono, end stops, rest value, CC/pitch-bend range, monotonicity and exact ends, on the softfloat model for every raw value and deadzone in [0,1); accuracy (Props/C06acc.lean): C06_shape_accuracy (the binary64 shaped value is within 2^-17 of the exact rational transfer function Spec.idealShape, for every axis range within 32 bits and every deadzone in [0,1): error propagation through every rounding, with a separate argument for deadzones within 2^-32 of 1), C06_cc_accuracy / C06_pb_accuracy (every transmitted controller / pitch-bend value is within one step of Spec.idealValue, all signed/unsigned x uni/bidirectional x flip cases; absCC_sends ties the value to Dev.absCC). Regenerated tie (session 5): handleABSEvent (a chain of 11 segment definitions) and processEvent are translated from events.go into Hidi/Gen/Bodies.lean on every run; Props/GenTieAbs.lean proves them equal to the model's handleAbs / step for every state, configuration, axis and raw value (GenTieAbs_handleABSEvent, GenTieAbs_processEvent_*), with the same Float.lean binary64 operations on both sides, and restates C05 on the generated processEvent (GenTieAbs_C05_wellformed).",
             "Trusted: Go on amd64 evaluates float64 + - * / with round-to-nearest-even and no FMA (validated bit-exactly on every evaluation of the run). Axis ranges beyond 32 bits (not representable in an evdev event) are outside the accuracy theorem."),
     "C07": ("Lean 4 proof (invariant per bidirectional axis over all event sequences) + differential correspondence",
-            "C07_sequence: for any sequence of events of a bidirectional axis with distinct controller numbers at most one side is non-zero at the receiver; C07_explicit_zero, C07_crossing, C07_learning_gate.", ""),
+            "C07_sequence: for any sequence of events of a bidirectional axis with distinct controller numbers at most one side is non-zero at the receiver; C07_explicit_zero, C07_crossing, C07_learning_gate. Regenerated tie (session 5): handleABSEvent (a chain of 11 segment definitions) and processEvent are translated from events.go into Hidi/Gen/Bodies.lean on every run; Props/GenTieAbs.lean proves them equal to the model's handleAbs / step for every state, configuration, axis and raw value (GenTieAbs_handleABSEvent, GenTieAbs_processEvent_*), with the same Float.lean binary64 operations on both sides, and restates C05 on the generated processEvent (GenTieAbs_C05_wellformed).", ""),
     "C08": ("Lean 4 proof (per event, from any state) + differential correspondence",
-            "C08_pos/neg/centre/band/silent/pairing/not_both/release_axis: tracker and messages after each event of a key-emulating axis.", ""),
+            "C08_pos/neg/centre/band/silent/pairing/not_both/release_axis: tracker and messages after each event of a key-emulating axis. Regenerated tie (session 5): handleABSEvent (a chain of 11 segment definitions) and processEvent are translated from events.go into Hidi/Gen/Bodies.lean on every run; Props/GenTieAbs.lean proves them equal to the model's handleAbs / step for every state, configuration, axis and raw value (GenTieAbs_handleABSEvent, GenTieAbs_processEvent_*), with the same Float.lean binary64 operations on both sides, and restates C05 on the generated processEvent (GenTieAbs_C05_wellformed).", ""),
     "C09": ("Lean 4 proof (conversion + guard never panic) + differential correspondence + file mutation search (labelled fuzzing)",
             "C09_convert_total (the conversion after decoding returns a configuration or an error for every decoded structure, never a panic), C09_parse_total / C09_hidi_total (with the recover guard, every outcome of the third-party decoder — ok, error, panic — gives a configuration or an error), C09_guard_needed (without the guard a decoder panic escapes: the defect repaired in the repository), C09_source_facts (both entry points defer a recover — regenerated).",
             "go-toml decoding itself is third-party and only exercised (mutation search, labelled as fuzzing); hangs are caught by time-outs only."),
@@ -43,9 +43,9 @@ CHECKS = {
             "C12_precedence_keyboard / C12_precedence_joystick (user exact > user default > factory exact > factory default, from the class's own directories), C12_unsupported, C12_user_over_factory, C12_not_found_iff, C12_isolation / C12_bad_entry_irrelevant (a file that fails to parse changes nothing for the others), C12_result_from_good, C12_never_panics, C12_missing_is_error.",
             "File contents enter the model as parse outcomes; directory walking order is filepath.Walk's lexical order (compared differentially on generated trees incl. hidden files, nested directories, directories named *.toml)."),
     "C13": ("Lean 4 proof + differential correspondence",
-            "C13_messages, C13_quiet, C13_state, C13_press_release_identity, C13_ext_irrelevant, C13_as_if_not_happened (any continuation produces the same output as without the panic); C13_all_messages / C13_all_trackers in every state of mixed histories (Props/C13mixed.lean).", ""),
+            "C13_messages, C13_quiet, C13_state, C13_press_release_identity, C13_ext_irrelevant, C13_as_if_not_happened (any continuation produces the same output as without the panic); C13_all_messages / C13_all_trackers in every state of mixed histories (Props/C13mixed.lean). Regenerated tie (session 5): tools/extract/golite.go translates the Go bodies of the key path (the 12 up/down/reset methods, CCLearningOn/Off, Panic, checkDoubleActions, NoteOn, NoteOff, AnalogNoteOn/Off, checkExitSequence, the dispatch tables, handleKEYEvent) into Hidi/Gen/Bodies.lean on every run; Props/GenTie.lean proves each generated function equal to the model function for every state, configuration and event (GenTie_handleKEYEvent, GenTie_reachable) and restates C02/C04/C13/C14 theorems about the generated handler.", ""),
     "C14": ("Lean 4 proof + differential correspondence",
-            "C14_signal_iff, C14_completing_press, C14_tracker_is_keys_down, C14_never_when_empty(_history); on histories of every event kind (keys, axes of all types, SYN, MIDI input; Props/C14mixed.lean): C14_all_signal_iff (signal iff a key press completing the sequence; axis / SYN / MIDI-input events never raise it), C14_all_tracker, C14_all_history, C14_all_never_when_empty.",
+            "C14_signal_iff, C14_completing_press, C14_tracker_is_keys_down, C14_never_when_empty(_history); on histories of every event kind (keys, axes of all types, SYN, MIDI input; Props/C14mixed.lean): C14_all_signal_iff (signal iff a key press completing the sequence; axis / SYN / MIDI-input events never raise it), C14_all_tracker, C14_all_history, C14_all_never_when_empty. Regenerated tie (session 5): tools/extract/golite.go translates the Go bodies of the key path (the 12 up/down/reset methods, CCLearningOn/Off, Panic, checkDoubleActions, NoteOn, NoteOff, AnalogNoteOn/Off, checkExitSequence, the dispatch tables, handleKEYEvent) into Hidi/Gen/Bodies.lean on every run; Props/GenTie.lean proves each generated function equal to the model function for every state, configuration and event (GenTie_handleKEYEvent, GenTie_reachable) and restates C02/C04/C13/C14 theorems about the generated handler.",
             "The blocking send on the signal channel is not modelled."),
     "C15": ("Lean 4 proof over transition-system models of the fan-out and the relay (all interleavings of the model) + source fact regenerated from fan.go + scripted and free-running runs of the real goroutines",
             "C15_fan_exactly_once (for every schedule each connected output has been given exactly the block of the dispatch log since its spawn, in order — HidiProofs/FanLemmas.lean), C15_fan_quiescent, C15_ids_distinct, C15_relay_order / C15_relay_complete (per emitter: exactly once, in emission order), C15_input_relay_order (input direction: the consumer has received a prefix of the arrival sequence, for every schedule), C15_source_facts (send selected against a per-output leaving signal), C15_despawn_blocks_unguarded (witness of the repaired deadlock), C15_despawn_completes_on_wedge, C15_despawn_completes (progress: from every reachable state of the guarded fan-out with a removal pending, at most 2*|outputs|+5 enabled steps of the dispatcher, the remover and consumers that have not been told to leave return the call; never a step of the removed consumer — HidiProofs/FanLive.lean).",
@@ -54,7 +54,7 @@ CHECKS = {
             "C16_table_disciplined (the access table regenerated from package device — every *Device field access of the three goroutines with the mutexes held — has a common mutex for every conflicting pair), C16_no_race (generic lockset theorem: no schedule enables two conflicting accesses), C16_writes_locked, C16_table_complete, C16_no_shared_package_state, C16_independent, C16_source_facts; life-cycle transition system of the three goroutines and the two mutexes (Hidi/Life.lean): C16_life_mutual_exclusion (every schedule, single lock order), C16_life_wait_means_finished, C16_life_terminates (from every reachable state with the input ended at most 973 enabled steps of the goroutines themselves finish all three), C16_life_no_deadlock, C16_life_source_facts (regenerated: every waiting loop watches ctx.Done(), range -> cancel -> clean-up -> wg.Wait, lock nesting table); the decision on the implementation: every ProcessEvents returns promptly, no goroutine is left, the race detector is silent, each device's output equals its output when run alone.",
             "Partial by nature: schedules are sampled under the race detector; a peer that never answers TCP is not modelled."),
     "C17": ("Lean 4 proof over the frame model (painting order, byte arithmetic, exact channel colours) + source facts + frames of the real LED loop captured by a fake OpenRGB server",
-            "C17_refinement (every LED of every frame equals the declarative per-LED specification LedSpec.highlight: active > external colour of the current channel > colour of the lowest other MIDI-input channel > base colour; proved via last-write-wins over the write list), C17_pitch_class (base colour of a mapped key = class colour of note + semitone + 12*octave), C17_unavailable (out of MIDI range and bound to no action: unavailable colour), C17_external, C17_other_channel, C17_frame_total (any layout incl. none: one colour per LED, nothing outside the frame written), C17_layout (an action paints at most the LED of its own key), C17_active (LEDs of keys at a held pitch show the active colour whatever was painted before), C17_midi_in_note_off / note_on_zero / note_on / cleared, C17_panic_clears, C17_channel_colours, C17_source_facts, witnesses C17_unchecked_crashes / C17_unchecked_hits_led0; independent per-LED expectation from State(), the device's own MIDI output and the MIDI-input script evaluated on every captured frame.",
+            "C17_refinement (every LED of every frame equals the declarative per-LED specification LedSpec.highlight: active > external colour of the current channel > colour of the lowest other MIDI-input channel > base colour; proved via last-write-wins over the write list), C17_pitch_class (base colour of a mapped key = class colour of note + semitone + 12*octave), C17_unavailable (out of MIDI range and bound to no action: unavailable colour), C17_external, C17_other_channel, C17_frame_total (any layout incl. none: one colour per LED, nothing outside the frame written), C17_layout (an action paints at most the LED of its own key), C17_active (LEDs of keys at a held pitch show the active colour whatever was painted before), C17_midi_in_note_off / note_on_zero / note_on / cleared, C17_panic_clears, C17_channel_colours, C17_source_facts, witnesses C17_unchecked_crashes / C17_unchecked_hits_led0; independent per-LED expectation from State(), the device's own MIDI output and the MIDI-input script evaluated on every captured frame. Session 5: C17_action_key (the LED of the key an action is bound to shows the indicator colour of the current octave / semitone / mapping / channel, `indicator`), C17_octave_up_key; Props/C17gentie.lean: the MIDI-input tracker body regenerated from handleInputEvents equals Dev.midiIn for every state and message (C17_gen_midi_in, C17_gen_note_on_zero, C17_gen_note_off, C17_gen_note_on).",
             "Trusted/partial: go-colorful HSV round trip (class colours taken from the real shiftColor each run, measured ±1/255); frames sampled after quiescence; |12·octave+semitone| ≤ 127."),
     "C18": ("Lean 4 proof over a file-tree model + differential correspondence + real interrupted runs (RLIMIT_FSIZE, strace fault injection)",
             "For every template and tree: C18_frame (everything that is not a factory template path is untouched), C18_restores, C18_blacklist_created, C18_idempotent, C18_succeeds (every regular tree), crashStates_similar; instantiated with the repository's embedded template (Gen.templateShape, regenerated and compared with the real embed.FS on every run): C18_template_facts, C18_repo, C18_crash_repo (a later run on whatever an interrupted run left restores the factory files and keeps the user files), C18_fresh_repo (absent directory: complete tree).",
